@@ -11,6 +11,11 @@ CHECKS = {
          "Seeded hostile histories of the real application (send/cancel/batch build/estimates/confirms/time-outs/executed-batch and deposit attestations, tax changes, a chain without eligible relayer) are executed through ABCI; at every block boundary a ledger keyed by transfer id is compared with pool, batches, escrow balance and supply. At sampled boundaries every bridge step is re-run on throw-away forks with exactly the k-th collaborator call failed, for every k, checking byte-identical skyway+bank stores after a reported failure and the ledger invariants after every step. Held = held on those histories and fault points.",
          "Faults are errors at the hooked bank/EVM keeper interface calls; oracle voting taken from the chain (C02); tax arithmetic (C15) and crash atomicity below ABCI out of scope.",
          "DESIGN.md §2 C01"),
+ "C02": ("exploration", "chain+world",
+         "shadow-oracle monitor over ABCI histories of the real app with honest/lazy/byzantine pigeons, stake churn, jailing and governance nonce overrides",
+         "Seeded hostile histories of the real application: a simulated remote chain emits events, one pigeon per validator votes (honest, late, or for an altered claim), stake moves, validators get jailed/unjailed, governance moves the oracle cursor down/up/to the same value and back. After every block the shadow oracle re-derives from the stored attestation records and staking powers: duplicate-free vote lists, distinct voters' power*100 > 66*total for every claim that took effect, strictly consecutive nonces, one claim per nonce per reset epoch, cursor advance == number of effects, and supply/receiver effects applied exactly once. Held = held on those histories.",
+         "Stored powers after a block equal those the tally saw (module order); jailing via valset.Jail; compass hand-over resets only at bring-up.",
+         "DESIGN.md §2 C02"),
  "C19": ("exploration", "pure",
          "reference-model monitor over insert/remove/select histories of the real mempool (bounded-exhaustive + seeded random)",
          "Every history of <=5 (quick) / <=6 (thorough) operations over a 2-sender x 2-sequence x 5-class alphabet plus seeded random histories over up to 8 senders is executed against the real DefaultPriorityMempool; after every operation a map-based reference model checks count, exactly-once, per-sender nonce order and the class-priority rule. Held = held on those histories.",
